@@ -78,9 +78,10 @@ def register_tcp_client(R):
         requires=[("ghost: no block has run yet", "not ghost.block_raised")],
         ensures=[("packet-bytes-written-once-in-order", f"ghost.WIRE == old(ghost.WIRE) + flat({chunks})", "C04 C12"),
                  ("send-lock-released", f"not {SL}", "C12"), ("total-blocking-within-the-budget-of-the-whole-call (lock wait included)", f"implies({finite}, {W} <= fin({T}))", "C11")],
-        raises={"BaseException": [("send-lock-released-on-every-exit", f"not {SL}", "C12"),
-                                  ("at-most-a-prefix-of-the-packet-was-written", "len(ghost.WIRE) >= len(old(ghost.WIRE))", "C04")],
-                "OSError": [("total-blocking-within-the-budget-of-the-whole-call (lock wait included)", f"implies({finite}, {W} <= fin({T}))", "C11")]},
+        raises={"OSError": [("send-lock-released-on-every-exit", f"not {SL}", "C12"),
+                            ("at-most-a-prefix-of-the-packet-was-written", "len(ghost.WIRE) >= len(old(ghost.WIRE))", "C04"), ("total-blocking-within-the-budget-of-the-whole-call (lock wait included)", f"implies({finite}, {W} <= fin({T}))", "C11")],
+                "BaseException": [("send-lock-released-on-every-exit", f"not {SL}", "C12"),
+                                  ("at-most-a-prefix-of-the-packet-was-written", "len(ghost.WIRE) >= len(old(ghost.WIRE))", "C04")]},
         modifies=["ghost.WIRE", "ghost.now", "ghost.waited", "ghost.unbounded_waits", "ghost.block_raised", SL,
                   "self.__send_lock._ForkSafeLock__unsafe_lock", "self.__send_lock._ForkSafeLock__pid"],
         env={"exc_universe": ["ssl.SSLEOFError", "ssl.SSLZeroReturnError", "ssl.SSLError"], "call_hints": {"send": [
@@ -121,12 +122,12 @@ def register_tcp_client(R):
                  f"implies(old({EOFL}), ghost.recv_calls == old(ghost.recv_calls))", "C03"),
                 ("end-of-stream-is-never-reported-while-a-complete-packet-is-buffered", p["need"], "C03"),
                 ("nothing-lost", f"{U} == {X}", "C03 C10"),
-                ("receive-lock-released", f"not {RL}", "C12 C11")],
+                ("receive-lock-released", f"not {RL}", "C12 C11"), ("total-blocking-within-the-budget-of-the-whole-call (lock wait included)", f"implies({finite}, {W} <= fin({T}))", "C11")],
             "ssl.SSLEOFError": [("an-abrupt-end-of-the-TLS-stream-is-reported-as-ConnectionAbortedError-like-any-end-of-stream", "False", "C03 C09")],
             "StreamProtocolParseError": [("parser-error-on-the-pending-bytes", p["err"], "C03 C06"), ("remainder-kept", f"{U} == {p['rest']}", "C03 C10"),
                                          ("receive-lock-released", f"not {RL}", "C12 C11")],
+            "OSError": [("receive-lock-released-on-every-exit", f"not {RL}", "C12 C11"), ("total-blocking-within-the-budget-of-the-whole-call (lock wait included)", f"implies({finite}, {W} <= fin({T}))", "C11")],
             "BaseException": [("receive-lock-released-on-every-exit", f"not {RL}", "C12 C11")],
-            "OSError": [("total-blocking-within-the-budget-of-the-whole-call (lock wait included)", f"implies({finite}, {W} <= fin({T}))", "C11")],
         },
         modifies=["ghost.IN", "ghost.recv_calls", "ghost.EOF", "ghost.io_errors", "ghost.now", "ghost.waited", "ghost.unbounded_waits", "ghost.block_raised", RL,
                   "self.__receive_lock._ForkSafeLock__unsafe_lock", "self.__receive_lock._ForkSafeLock__pid", EOFL,
@@ -192,7 +193,8 @@ def register_udp_client(R):
         requires=[("ghost: no block has run yet", "not ghost.block_raised")],
         ensures=[("exactly-one-datagram-carrying-the-serialized-packet", f"ghost.DG_OUT == old(ghost.DG_OUT) + unit({dg})", "C05 C12"),
                  ("send-lock-released", f"not {SL}", "C12"), ("total-blocking-within-the-budget-of-the-whole-call (lock wait included)", f"implies({finite}, (ghost.waited - old(ghost.waited)) <= fin({T}))", "C11")],
-        raises={"BaseException": [("send-lock-released-on-every-exit", f"not {SL}", "C12")], "OSError": [("total-blocking-within-the-budget-of-the-whole-call (lock wait included)", f"implies({finite}, (ghost.waited - old(ghost.waited)) <= fin({T}))", "C11")]},
+        raises={"OSError": [("send-lock-released-on-every-exit", f"not {SL}", "C12"), ("total-blocking-within-the-budget-of-the-whole-call (lock wait included)", f"implies({finite}, (ghost.waited - old(ghost.waited)) <= fin({T}))", "C11")],
+                "BaseException": [("send-lock-released-on-every-exit", f"not {SL}", "C12")]},
         modifies=common_mod + ["ghost.DG_OUT", SL, "self.__send_lock._ForkSafeLock__unsafe_lock", "self.__send_lock._ForkSafeLock__pid"],
         env={"call_hints": {"send": [("the-datagram-is-sent-while-this-thread-holds-the-send-lock", SL), budget]}},
         tags="C12 C11 C05",
@@ -204,7 +206,8 @@ def register_udp_client(R):
         ensures=[("exactly-one-datagram-consumed", "len(ghost.DG_IN) == len(old(ghost.DG_IN)) + 1", "C05"),
                  ("receive-lock-released", f"not {RL}", "C12 C11"), ("total-blocking-within-the-budget-of-the-whole-call (lock wait included)", f"implies({finite}, (ghost.waited - old(ghost.waited)) <= fin({T}))", "C11")],
         raises={"DatagramProtocolParseError": [("exactly-one-datagram-consumed", "len(ghost.DG_IN) == len(old(ghost.DG_IN)) + 1", "C05 C06"), ("receive-lock-released", f"not {RL}", "C12")],
-                "BaseException": [("receive-lock-released-on-every-exit", f"not {RL}", "C12 C11")], "OSError": [("total-blocking-within-the-budget-of-the-whole-call (lock wait included)", f"implies({finite}, (ghost.waited - old(ghost.waited)) <= fin({T}))", "C11")]},
+                "OSError": [("receive-lock-released-on-every-exit", f"not {RL}", "C12 C11"), ("total-blocking-within-the-budget-of-the-whole-call (lock wait included)", f"implies({finite}, (ghost.waited - old(ghost.waited)) <= fin({T}))", "C11")],
+                "BaseException": [("receive-lock-released-on-every-exit", f"not {RL}", "C12 C11")]},
         modifies=common_mod + ["ghost.DG_IN", RL, "self.__receive_lock._ForkSafeLock__unsafe_lock", "self.__receive_lock._ForkSafeLock__pid"],
         env={"call_hints": {"receive": [("the-datagram-is-read-while-this-thread-holds-the-receive-lock", RL), budget]}},
         tags="C12 C11 C05",
